@@ -157,3 +157,46 @@ def _():
 def _():
     d = _imsc(TT % ('ttp:displayAspectRatio="0 9"', '<body/>'))
     if d.get_display_aspect_ratio() is not None: return f'ttp:displayAspectRatio="0 9" is read as {d.get_display_aspect_ratio()}'
+
+
+# ---- colour values after the repair of ttconv.utils.parse_color (fullmatch, ASCII digits, components at most 255): must pass
+@witness("C04", "lax-color-syntax")
+def _():
+    import ttconv.style_properties as s
+    from ttconv.utils import parse_color
+    lax = ["#ff0000x", "#ff000080f", "#ff0000 ", "rgb(1,2,3) ", "rgb(1,2,3)x", "rgba(1,2,3,4)\n", "rgb(1,2,256)", "rgba(1,2,3,1000)", "rgb(١,2,3)",
+           "rgba(1,2,3,４)", "rgb(1, 2,3)", " red", "red ", "#ff00", "rgb(1,2)", "rgb(1,2,3,4)", "rgba(1,2,3)", "rgb (1,2,3)", "rgb(-1,2,3)", "rgb(1.0,2,3)",
+           "rgb(" + "0" * 4301 + ",2,3)"]
+    for v in lax:
+        try:
+            c = parse_color(v)
+        except ValueError:
+            continue
+        return f"parse_color({v[:40]!r}) is accepted as {c.components}"
+    good = {"#FF0000": (255, 0, 0, 255), "#ff000080": (255, 0, 0, 128), "rgb(1,2,3)": (1, 2, 3, 255), "rgb( 1 ,\t2 , 3\n)": (1, 2, 3, 255), "rgba( 1,2 , 3 , 255 )": (1, 2, 3, 255),
+            "rgb(007,0,255)": (7, 0, 255, 255), "RED": (255, 0, 0, 255), "Transparent": (0, 0, 0, 0), "rgb(" + "0" * 4299 + "9,2,3)": (9, 2, 3, 255)}
+    for v, want in good.items():
+        try:
+            c = parse_color(v)
+        except ValueError as e:
+            return f"parse_color({v[:40]!r}) is rejected: {e}"
+        if tuple(c.components) != want: return f"parse_color({v[:40]!r}) is {c.components}, not {want}"
+    # through the reader: the malformed colour is ignored and reported, the well-formed sibling attribute is kept
+    d, logs = _logs(TT % ("", '<body><div><p tts:color="#ff0000x" tts:backgroundColor="rgb(1,2,256)" tts:fontStyle="italic">a</p>'
+                              '<p tts:color="rgb( 1 , 2 , 3 )" tts:backgroundColor="rgba(1 ,2,3,4)">b</p></div></body>'))
+    p1, p2 = list(list(d.get_body())[0])
+    if p1.get_style(s.StyleProperties.Color) is not None: return 'tts:color="#ff0000x" is read as a colour'
+    if p1.get_style(s.StyleProperties.BackgroundColor) is not None: return 'tts:backgroundColor="rgb(1,2,256)" is read as a colour'
+    if p1.get_style(s.StyleProperties.FontStyle) is None: return "the well-formed sibling attribute of a malformed colour is lost"
+    if p2.get_style(s.StyleProperties.Color) is None or tuple(p2.get_style(s.StyleProperties.Color).components) != (1, 2, 3, 255): return 'tts:color="rgb( 1 , 2 , 3 )" is not read as (1, 2, 3, 255)'
+    if len(logs) < 3: return f"only {len(logs)} log records for three malformed colour attributes"
+
+
+@witness("C04", "fontfamily-one-character")
+def _():
+    # repaired for another property: an unquoted family name of one character used to be rejected (the attribute was ignored)
+    import ttconv.style_properties as s
+    d = _imsc(TT % ("", '<body><div><p tts:fontFamily="A">a</p><p tts:fontFamily="B, sansSerif">b</p></div></body>'))
+    p1, p2 = list(list(d.get_body())[0])
+    if p1.get_style(s.StyleProperties.FontFamily) != ("A",): return f'tts:fontFamily="A" is read as {p1.get_style(s.StyleProperties.FontFamily)!r}'
+    if p2.get_style(s.StyleProperties.FontFamily) != ("B", s.GenericFontFamilyType.sansSerif): return f'tts:fontFamily="B, sansSerif" is read as {p2.get_style(s.StyleProperties.FontFamily)!r}'
